@@ -149,7 +149,7 @@ def wk_warm():
     first real step.  Scheduling points are disarmed meanwhile."""
     global _ARMED
     _ARMED = False
-    d = tempfile.mkdtemp(prefix="verif_c36_warm_")
+    d = tempfile.mkdtemp(prefix="warm_", dir=os.environ.get("VERIF_SCHED_ROOT"))   # inside the pool's scratch root
     try:
         from androguard.session import Session
         for _ in range(2):
